@@ -121,7 +121,7 @@ func runWorker(bin string, gomaxprocs int, raceLog string, args ...string) runOu
 	if raceLog == "" {
 		raceLog = filepath.Join(scratch, "racelog-worker")
 	}
-	cmd.Env = append(os.Environ(), goraceBase+" log_path="+raceLog, "VERIF_SAMPLES="+filepath.Join(repoDir, "testdata"), "VERIF_CORPUS="+corpusFile)
+	cmd.Env = append(os.Environ(), goraceBase+" log_path="+raceLog, "VERIF_SAMPLES="+filepath.Join(repoDir, "testdata"), "VERIF_CORPUS="+corpusFile, "VERIF_CHANOPS="+chanFlag())
 	if gomaxprocs > 0 {
 		cmd.Env = append(cmd.Env, "GOMAXPROCS="+strconv.Itoa(gomaxprocs))
 	}
@@ -348,6 +348,13 @@ func main() {
 		cleanup()
 		os.Exit(1)
 	}
+}
+
+func chanFlag() string {
+	if chanOps > 0 {
+		return "1"
+	}
+	return "0"
 }
 
 func tail(s string, n int) string {
